@@ -48,6 +48,14 @@ CHECKS = {
         "No-space joins are generated only after 2, 4, ½, ¼ (DESIGN 6.5).",
         "DESIGN.md section 4 C07",
     ),
+    "C01": (
+        "seeded Hypothesis generation of abstract descriptions rendered in all four layouts; model oracle + pretty_desc round trip",
+        "An abstract description (Twp/Rge groups x section lists x blocks) is rendered with independently drawn spellings, connectors and "
+        "separators in each documented layout; tracts (trs, desc) must equal the list computed from the abstract value, the layout must be "
+        "deduced, no error flag raised, and the library's pretty_desc rendering must parse back to the same tracts.",
+        "Blocks satisfy a harness-side well-formedness predicate; domain decisions DESIGN 6.1-6.3 (counted exclusions).",
+        "DESIGN.md section 4 C01",
+    ),
 }
 
 NOT_BUILT = {}
